@@ -164,6 +164,14 @@ def walkB (fx : Fix) (all : List Leaf) (rt : Nat → Nat) (cx : Ctx) : Blk → L
 def insertBarriers (fx : Fix) (rt : Nat → Nat) (p : Blk) : Blk :=
   (walkB fx (leavesB p) rt (topCtx p) p []).1
 
+/-- The pass on a MODULE: `InsertSyncBarrier.apply` is one walk over all functions, and the list `ops_to_sync`
+survives from one function to the next. The users of a value are operations of the same function (SSA values are
+function-local), hence the per-function table `leavesB f`. -/
+def walkModule (fx : Fix) (rt : Nat → Nat) : List Blk → List Nat → List Blk
+  | [], _ => []
+  | f :: fs, P =>
+    (walkB fx (leavesB f) rt (topCtx f) f P).1 :: walkModule fx rt fs (walkB fx (leavesB f) rt (topCtx f) f P).2
+
 /-- root of a value under a list of (view result, source) pairs -/
 def rootOf (views : List (Nat × Nat)) : Nat → Nat → Nat
   | 0, v => v
